@@ -116,6 +116,31 @@ func mRun(r *engine.Run, mode string) int {
 		}
 	}
 	if r.Thorough() {
+		// transaction grouping: consecutive statements of one writer wrapped in BEGIN..COMMIT
+		for base := 0; base <= 1; base++ {
+			for n := 2; n <= 3; n++ {
+				stmtHistories(n, 3, 1, base, 4096, allKinds, func(h hist) {
+					if !plausible(h) {
+						return
+					}
+					for i := 0; i+1 < len(h.Ev); i++ {
+						if h.Ev[i].W != h.Ev[i+1].W {
+							continue
+						}
+						h2 := h
+						h2.Ev = append([]hEvent{}, h.Ev...)
+						h2.Ev[i].Tx, h2.Ev[i+1].Tx = 1, 2
+						cases = append(cases, engine.J(mCase{Mode: mode, H: h2, MaxRM: 1, Sub: 1}))
+						if i == 0 && len(h.Ev) == 3 && h.Ev[2].W == h.Ev[0].W {
+							h3 := h
+							h3.Ev = append([]hEvent{}, h.Ev...)
+							h3.Ev[0].Tx, h3.Ev[2].Tx = 1, 2
+							cases = append(cases, engine.J(mCase{Mode: mode, H: h3, MaxRM: 1, Sub: 1}))
+						}
+					}
+				})
+			}
+		}
 		// second slice: two keys and small rows-per-object (multi-level trees), 3 statements
 		for _, epn := range []int{2} {
 			for base := 0; base <= 1; base++ {
